@@ -458,6 +458,7 @@ func afterCall(rec *Record, env *sims.Env) {
 	if env.Cache != nil {
 		inFlight = env.Cache.CallOver()
 	}
+	env.Net.CallOver()
 	if rec.Sig != "" {
 		return
 	}
@@ -468,6 +469,9 @@ func afterCall(rec *Record, env *sims.Env) {
 	defer func() {
 		// whatever still touches the caller's cache after the call returned was
 		// started by the call and left behind
+		if rec.Sig == "" && env.Net.Late() > 0 {
+			rec.Sig, rec.What = "request-after-return", fmt.Sprintf("%d request(s) were sent after the call had returned", env.Net.Late())
+		}
 		if rec.Sig == "" && env.Cache != nil && env.Cache.Late() > 0 {
 			rec.Sig, rec.What = "cache-used-after-return", fmt.Sprintf("%d operation(s) on the caller's cache began after the call had returned", env.Cache.Late())
 		}
